@@ -345,6 +345,11 @@ class Work:
                 reports.append(json.load(open(o)))
                 continue
             fatal, case, txt = crashinfo(lg, cf_)
+            if fatal and case and 'concurrent map' in fatal:
+                # the runtime's own detector of unsynchronised map access: schedule dependent, needs no second run
+                log('engine %s shard %d: %s (case %s)' % (engine, i, fatal, case))
+                self.engine_crashes.append(dict(case=case, fatal=fatal, log=txt[:3000], seed=self.seed))
+                continue
             if fatal and case:
                 p2, o2, lf2, lg2, cf2 = start(i, '-again')
                 rc2 = p2.wait()
